@@ -169,6 +169,14 @@ pub enum Conversion {
     Offset(ConversionFraction),
 }
 
+impl Conversion {
+    /// Test if the conversion is not a plain factor, i.e. involves a
+    /// zero-point offset.
+    pub(crate) fn is_affine(&self) -> bool {
+        !matches!(self, Conversion::Factor(..))
+    }
+}
+
 /// The vtable for a derived unit.
 pub struct DerivedVtable {
     /// Populate base powers.
